@@ -1,4 +1,6 @@
-(** Known finding of C01 (known-findings.txt, id failed-commit-dedup-persisted).
+(** FORMER known finding of C01 (known-findings.txt, id failed-commit-dedup-persisted; repaired by /repo 890d206:
+    the text below describes the code BEFORE the repair; the definitions are kept for the historical theorem of
+    Props/C01.v and as the decidable form of clause I5 that the check evaluates on real staged inventories).
 
     commit_inner (repo.rs) runs dedup_head, rewrites the staged inventory and deletes the
     duplicate staged files BEFORE the store call that can still refuse the commit
